@@ -1537,7 +1537,8 @@ ENTRY_METHODS = {'parse', 'extract', '__init__'}
 
 
 class CaseVal:
-    """abstract value: kind T(ext) / M(atch) / C(aptured text) / L(ist of captures) / I(terable of matches); lower = known lower case"""
+    """abstract value: kind T(ext) / M(atch) / C(aptured text) / L(ist of captures) / I(terable of matches);
+    lower = True (known lower case) | False (raw: established by an entry point or a call site) | None (provenance unknown)"""
     __slots__ = ('kind', 'lower')
 
     def __init__(self, kind, lower):
@@ -1550,14 +1551,24 @@ class CaseVal:
         return hash((self.kind, self.lower))
 
     def __repr__(self):
-        return '%s%s' % (self.kind, '+' if self.lower else '-')
+        return '%s%s' % (self.kind, {True: '+', False: '-', None: '?'}[self.lower])
+
+
+def _and3(x, y):
+    """three-valued: raw as soon as one part is raw, lower only when both are, otherwise unknown"""
+    if x is False or y is False:
+        return False
+    return True if (x is True and y is True) else None
 
 
 def _cjoin(a, b):
     if a is None or b is None:
-        return None if (a is None and b is None) else CaseVal((a or b).kind, False)
+        if a is None and b is None:
+            return None
+        o = a or b
+        return CaseVal(o.kind, False if o.lower is False else None)
     kind = 'C' if 'C' in (a.kind, b.kind) else a.kind
-    return CaseVal(kind, a.lower and b.lower)
+    return CaseVal(kind, _and3(a.lower, b.lower))
 
 
 class CaseFlow:
@@ -1567,6 +1578,17 @@ class CaseFlow:
         self.lookups = []       # (node, slot, CaseVal of key)
         self.calls = []         # (method name, is_self, [CaseVal per positional arg], {kw: CaseVal})
         self.returns = returns or {}    # method name -> CaseVal of what self.<name>() returns
+        self.callable_vars = {}         # loop variable -> [method names] (for f in (self.a, self.b): f(x))
+        self.literals = {}              # local bound once to a tuple / list literal
+        counts = {}
+        for n in ast.walk(fn):
+            if isinstance(n, ast.Assign):
+                for t in n.targets:
+                    if isinstance(t, ast.Name):
+                        counts[t.id] = counts.get(t.id, 0) + 1
+                        if isinstance(n.value, (ast.Tuple, ast.List)):
+                            self.literals[t.id] = n.value
+        self.literals = {k: v for k, v in self.literals.items() if counts.get(k) == 1}
         self.ret = []           # CaseVal of every returned expression
 
     def val(self, e, env):
@@ -1592,12 +1614,12 @@ class CaseFlow:
             a, b = self.val(e.left, env), self.val(e.right, env)
             if a is None and b is None:
                 return None
-            return _cjoin(a or CaseVal('T', False), b or CaseVal('T', False))
+            return _cjoin(a or CaseVal('T', None), b or CaseVal('T', None))
         if isinstance(e, ast.JoinedStr):
             out = CaseVal('T', True)
             for v in e.values:
                 x = self.val(v.value if isinstance(v, ast.FormattedValue) else v, env)
-                out = _cjoin(out, x or CaseVal('T', False))
+                out = _cjoin(out, x or CaseVal('T', None))
             return out
         if isinstance(e, ast.Subscript):
             base = self.val(e.value, env)
@@ -1627,12 +1649,16 @@ class CaseFlow:
         args = [self.val(a, env) for a in e.args]
         recv = self.val(f.value, env) if isinstance(f, ast.Attribute) else None
         recv_name = f.value.id if isinstance(f, ast.Attribute) and isinstance(f.value, ast.Name) else None
+        if isinstance(f, ast.Name) and f.id in self.callable_vars:
+            kw = {k.arg: self.val(k.value, env) for k in e.keywords if k.arg}
+            for mname in self.callable_vars[f.id]:
+                self.calls.append((mname, True, args, kw))
         if isinstance(f, ast.Attribute) and (recv_name == 'self' or not isinstance(f.value, ast.Name) or recv_name not in ('regex', 're', 'RegExpUtility', 'str')):
             self.calls.append((name, recv_name == 'self', args, {k.arg: self.val(k.value, env) for k in e.keywords if k.arg}))
         if recv_name == 'self' and name in self.returns:
             return self.returns[name]
         if name == 'lower' and not e.args:
-            base = recv or CaseVal('T', False)
+            base = recv or CaseVal('T', None)
             return CaseVal(base.kind if base.kind in ('T', 'C') else 'T', True)
         if name in STR_RAW and not e.args:
             return CaseVal((recv.kind if recv and recv.kind in ('T', 'C') else 'T'), False)
@@ -1650,13 +1676,13 @@ class CaseFlow:
                 text = args[1] if len(args) > 1 else None
             elif args:
                 text = args[0]
-            lower = bool(text is not None and text.lower)
+            lower = text.lower if text is not None else None
             return CaseVal('I' if name == 'finditer' else 'M', lower)
         if name == 'get_matches':
             return CaseVal('L', True)          # RegExpUtility.get_matches lower-cases what it returns
         if name in ('group', 'get_group', 'groups', 'captures', 'get_group_list', 'groupdict'):
             m = args[0] if recv_name == 'RegExpUtility' and args else recv
-            lower = bool(m is not None and m.kind == 'M' and m.lower)
+            lower = m.lower if (m is not None and m.kind == 'M') else None
             return CaseVal('L' if name in ('get_group_list', 'captures', 'groups') else 'C', lower)
         if name in ('next', 'iter', 'list', 'reversed', 'sorted', 'str') and isinstance(f, ast.Name) and args:
             a0 = args[0]
@@ -1712,6 +1738,7 @@ class CaseFlow:
                 if isinstance(st, ast.For):
                     self.scan(st.iter, env)
                     it = self.val(st.iter, env)
+                    self.note_callables(st)
                     for x in ast.walk(st.target):
                         if isinstance(x, ast.Name):
                             env[x.id] = CaseVal('M', it.lower) if it is not None and it.kind == 'I' else \
@@ -1739,6 +1766,24 @@ class CaseFlow:
                         self.ret.append(self.val(st.value, env))
         return env
 
+    def note_callables(self, st):
+        """for f in (self.a, self.b) / for f, n in ((self.a, 1), (self.b, 2)): the loop variable stands for those methods"""
+        lit = st.iter
+        if isinstance(lit, ast.Name):
+            lit = self.literals.get(lit.id)
+        if not isinstance(lit, (ast.Tuple, ast.List)) or not lit.elts:
+            return
+
+        def bound(e):
+            return e.attr if isinstance(e, ast.Attribute) and isinstance(e.value, ast.Name) and e.value.id == 'self' else None
+
+        if isinstance(st.target, ast.Name) and all(bound(e) for e in lit.elts):
+            self.callable_vars[st.target.id] = [bound(e) for e in lit.elts]
+        elif isinstance(st.target, ast.Tuple) and all(isinstance(e, ast.Tuple) and len(e.elts) == len(st.target.elts) for e in lit.elts):
+            for i, t in enumerate(st.target.elts):
+                if isinstance(t, ast.Name) and all(bound(e.elts[i]) for e in lit.elts):
+                    self.callable_vars[t.id] = [bound(e.elts[i]) for e in lit.elts]
+
     def run(self):
         self.walk(self.fn.body, self.env)
         seen, out = set(), []
@@ -1747,7 +1792,7 @@ class CaseFlow:
         best = {}
         for n, slot, v in out:
             k = id(n)
-            if k not in best or (best[k][2].lower and not v.lower):
+            if k not in best or _and3(best[k][2].lower, v.lower) != best[k][2].lower:
                 best[k] = (n, slot, v)
         return sorted(best.values(), key=lambda x: (x[0].lineno, x[0].col_offset))
 
@@ -1809,7 +1854,7 @@ def rule_lookup_case(chk, idx):
     rid = 'C09.lookup-case'
     chk.rule(rid, 'a configuration dictionary whose keys are all lower case is only asked with captured text that was lower-cased '
                   '(the capture, or the text that was searched) - the patterns are case-insensitive', floor=20, control=True)
-    ctl = CaseFlow(ast.parse(CASE_CONTROL).body[0], {}).run()
+    ctl = CaseFlow(ast.parse(CASE_CONTROL).body[0], {'source': CaseVal('T', False)}).run()
     chk.control(rid, [v.lower for _, _, v in ctl] == [False, True])
     # the patterns are compiled case-insensitively
     ru = idx.cls('recognizers_text.utilities.RegExpUtility')
@@ -1839,14 +1884,17 @@ def rule_lookup_case(chk, idx):
         for m, c, f in funcs:
             params = {k: (CaseVal('T', True) if v == 'top' else v) for k, v in pstate[(c, f.name)].items()}
             if f.name in ENTRY_METHODS:
-                params = {k: None for k in params}
+                params = {k: CaseVal('T', False) for k in params}       # called directly by the Specs / the model: text as written
             cf = CaseFlow(f, {k: v for k, v in params.items() if v is not None}, rstate)
             cf.run()
             rets = [r for r in cf.ret]
             if rets and all(isinstance(r, CaseVal) for r in rets) and len({r.kind for r in rets}) == 1:
-                rv = CaseVal(rets[0].kind, all(r.lower for r in rets))
+                low = True
+                for r in rets:
+                    low = _and3(low, r.lower)
+                rv = CaseVal(rets[0].kind, low)
                 prev = new_r.get(f.name, rv)
-                new_r[f.name] = CaseVal(rv.kind, rv.lower and prev.lower) if prev is not None and prev.kind == rv.kind else None
+                new_r[f.name] = CaseVal(rv.kind, _and3(rv.lower, prev.lower)) if prev is not None and prev.kind == rv.kind else None
             elif rets and any(isinstance(r, CaseVal) for r in rets):
                 new_r[f.name] = None
             for name, is_self, args, kwargs in cf.calls:
@@ -1865,11 +1913,15 @@ def rule_lookup_case(chk, idx):
             new[k] = {}
             for pname in v:
                 inc = incoming[k][pname]
-                if not inc or k[1] in ENTRY_METHODS:
-                    new[k][pname] = None
+                if k[1] in ENTRY_METHODS:
+                    new[k][pname] = CaseVal('T', False)
+                elif not inc:
+                    new[k][pname] = CaseVal('T', None)      # no call site the analysis can enumerate: provenance unknown, not raw
                 elif any(x is None for x in inc):
-                    kinds = {x.kind for x in inc if x is not None}
-                    new[k][pname] = CaseVal(kinds.pop(), False) if len(kinds) == 1 else None
+                    known = [x for x in inc if x is not None]
+                    kinds = {x.kind for x in known}
+                    raw = any(x.lower is False for x in known)
+                    new[k][pname] = CaseVal(kinds.pop() if len(kinds) == 1 else 'T', False if raw else None)
                 else:
                     out = inc[0]
                     for x in inc[1:]:
@@ -1890,7 +1942,8 @@ def rule_lookup_case(chk, idx):
                 skipped[slot] = skipped.get(slot, 0) + 1
                 continue
             construct = '%s.%s' % (c.name, f.name)
-            detail = 'self.config.%s asked with %s captured text' % (slot, 'lower-cased' if v.lower else 'raw')
+            detail = 'self.config.%s asked with %s captured text' % (
+                slot, {True: 'lower-cased', False: 'raw', None: 'captured (provenance of the searched text unknown)'}[v.lower])
             counts[detail] = counts.get(detail, 0) + 1
             if counts[detail] > 1:
                 detail += ' (#%d)' % counts[detail]
@@ -1902,6 +1955,10 @@ def rule_lookup_case(chk, idx):
                 continue
             n += 1
             chk.consulted(m.path)
+            if v.lower is None:
+                chk.exempt(rid, m.path, construct, 'the text that was searched reaches this function through calls the analysis cannot '
+                           'enumerate (method passed as a value / no visible call site): raw text is not established', detail, node.lineno)
+                continue
             chk.judge(v.lower, rid, m.path, construct, detail,
                       '`%s` asks self.config.%s (all keys lower case in %d table(s)) with text captured as written by a '
                       'case-insensitive pattern: neither the capture nor the searched text passes through .lower(), so capitalised '
